@@ -1,8 +1,8 @@
 (* C18 — The interaction graph contains exactly the circuit's two-qubit
    interactions.  Statements only; proofs are in Proofs/GraphP.v. *)
-From Coq Require Import ZArith List.
+From Coq Require Import ZArith List Permutation.
 Import ListNotations.
-From OSQ Require Import Num IR Graph GraphP.
+From OSQ Require Import Num IR Graph Remap Merge GraphP GraphMoreP.
 
 (* An edge {a,b} exists exactly when some gate (of any kind) has operand list
    [a;b] or [b;a]; nothing else contributes. Any element type, any circuit. *)
@@ -40,3 +40,42 @@ Example C18_example :
     = Ok [(2, 0)%Z]
   /\ graph_edges (T:=nat) [SGate 1 (Ctrl 2 (Ctrl 1 (BSR 0 (1,0,0) 0 0))) anon] = Err EValue.
 Proof. split; reflexivity. Qed.
+
+(* ---- the graph as a function of the circuit (Proofs/GraphMoreP.v) ---- *)
+
+(* EXACT: the edge list is the list of operand pairs of the two-operand gates, in circuit order, with multiplicity *)
+Theorem C18_edges_exact : forall (T : Type) (ir : list (stmt T)) (es : list (Z * Z)),
+  graph_edges ir = Ok es -> es = flat_map stmt_edge ir.
+Proof. exact @graph_edges_exact. Qed.
+Print Assumptions C18_edges_exact.
+
+Theorem C18_edges_app : forall (T : Type) (l1 l2 : list (stmt T)) (es1 es2 : list (Z * Z)),
+  graph_edges l1 = Ok es1 -> graph_edges l2 = Ok es2 -> graph_edges (l1 ++ l2) = Ok (es1 ++ es2).
+Proof. exact @graph_edges_app. Qed.
+Print Assumptions C18_edges_app.
+
+(* relabelling the circuit's qubits (as Circuit.map does) relabels the graph, edge by edge *)
+Theorem C18_edges_remap : forall (T : Type) (f : Z -> Z) (ir : list (stmt T)) (es : list (Z * Z)),
+  graph_edges ir = Ok es ->
+  graph_edges (map (remap_stmt f) ir) = Ok (map (fun e => (f (fst e), f (snd e))) es).
+Proof. exact @graph_edges_remap. Qed.
+Print Assumptions C18_edges_remap.
+
+(* the edge multiset does not depend on the order of the statements *)
+Theorem C18_edges_perm : forall (T : Type) (ir ir' : list (stmt T)) (es es' : list (Z * Z)),
+  Permutation ir ir' -> graph_edges ir = Ok es -> graph_edges ir' = Ok es' -> Permutation es es'.
+Proof. exact @graph_edges_perm. Qed.
+Print Assumptions C18_edges_perm.
+
+(* merging single-qubit gates leaves the interaction graph untouched (any numeric instance) *)
+Theorem C18_edges_merge_invariant : forall (T : Type) (N : Num T) (n : Z) (ir ir' : list (stmt T)) (es es' : list (Z * Z)),
+  merge N n ir = Ok ir' -> graph_edges ir = Ok es -> graph_edges ir' = Ok es' -> es' = es.
+Proof. exact @graph_edges_merge_invariant. Qed.
+Print Assumptions C18_edges_merge_invariant.
+
+Theorem C18_edges_example :
+  graph_edges ex_ir = Ok [(2, 0); (0, 1)]%Z
+  /\ graph_edges (map (remap_stmt (fun q => q + 10)%Z) ex_ir) = Ok [(12, 10); (10, 11)]%Z
+  /\ flat_map stmt_edge ex_ir = [(2, 0); (0, 1)]%Z.
+Proof. exact graph_edges_example. Qed.
+Print Assumptions C18_edges_example.
